@@ -20,6 +20,9 @@ pub struct HKey<K: EnrKey> {
     pub inner: K,
     pub log: Mutex<Vec<(Vec<u8>, Option<Vec<u8>>)>>,
     pub fail: AtomicBool,
+    /// 0 = sign normally; 1..=3 = keep signing (the built-in signers are randomised) until the
+    /// signature has a zero byte at offset 0 / 32 / 63: valid signatures with a rare byte pattern
+    pub shape: std::sync::atomic::AtomicU8,
 }
 
 impl<K: EnrKey> HKey<K> {
@@ -28,6 +31,7 @@ impl<K: EnrKey> HKey<K> {
             inner,
             log: Mutex::new(Vec::new()),
             fail: AtomicBool::new(false),
+            shape: std::sync::atomic::AtomicU8::new(0),
         }
     }
     pub fn take_log(&self) -> Vec<(Vec<u8>, Option<Vec<u8>>)> {
@@ -46,7 +50,22 @@ impl<K: EnrKey> EnrKey for HKey<K> {
                 .push((msg.to_vec(), None));
             return Err(SigningError::verif_new("injected fault"));
         }
-        let r = self.inner.sign_v4(msg);
+        let shape = self.shape.load(Ordering::SeqCst);
+        let mut r = self.inner.sign_v4(msg);
+        if shape != 0 {
+            let off = match shape {
+                1 => 0usize,
+                2 => 32,
+                _ => 63,
+            };
+            // deterministic signers (ed25519, toy) cannot be steered: give up after a few tries
+            for _ in 0..6000 {
+                match &r {
+                    Ok(sg) if sg.len() > off && sg[off] != 0 => r = self.inner.sign_v4(msg),
+                    _ => break,
+                }
+            }
+        }
         self.log
             .lock()
             .unwrap_or_else(|e| e.into_inner())
